@@ -391,6 +391,9 @@ def the_column_options(c):
     return f(c)
 
 
+from contracts.sql import mixed_side, same_table      # noqa: E402
+
+
 # ------------------------------------------------------------------------------------------ indexes
 def index_subject_text(s):
     return bare_or_quoted_name(s.name) if isinstance(s, Column) else (rendered_dbml(s) if isinstance(s, Expression) else s)
@@ -402,6 +405,11 @@ class index_render_options:
     params = {'model': 'Index'}
     pure = True
     ret = 'str'
+    returns_defines = True
+    assume_at_call = ()
+
+    def returns(model):
+        return the_index_options(model)
 
     def ensures_all_settings(model, result):
         return result == ''.join([' [' + ', '.join(
@@ -410,6 +418,53 @@ class index_render_options:
             + ([('type: ' + model.type)] if model.type else [])
             + ([note_option(model.note)] if model.note.text else [])) + ']'] if (
             model.name or model.pk or model.unique or model.type or model.note.text) else [])
+
+
+@contract('pydbml.renderer.dbml.default.index:render_subjects')
+class index_render_subjects:
+    """One subject is written bare; several are a parenthesised, comma-separated list in index order; a column is
+    written by its (quoted if needed) name, an expression through the renderer, a plain string as it is (C02)."""
+    properties = ('C02', 'C10')
+    params = {'source_subjects': 'List[Union[str,Column,Expression]]'}
+    pure = True
+    ret = 'str'
+
+    def requires_named(source_subjects):
+        return all(not isinstance(x, Column) or x.name is not None for x in source_subjects)
+
+    def raises_IndexError(source_subjects):
+        return len(source_subjects) == 0
+
+    def ensures_in_order(source_subjects, result):
+        return result == (('(' + ', '.join(index_subject_text(x) for x in source_subjects) + ')')
+                          if len(source_subjects) > 1 else ('' + index_subject_text(source_subjects[0])))
+
+
+@abstract('str')
+def the_index_options(ix):
+    from pydbml.renderer.dbml.default.index import render_options as f
+    return f(ix)
+
+
+@contract('pydbml.renderer.dbml.default.index:render_index')
+class dbml_render_index:
+    """comment lines, then the subjects, then the settings (C02, C14)."""
+    properties = ('C02', 'C14', 'C10')
+    params = {'model': 'Index'}
+    pure = True
+    ret = 'str'
+
+    def requires_named(model):
+        return all(not isinstance(x, Column) or x.name is not None for x in model.subjects)
+
+    def raises_IndexError(model):
+        return len(model.subjects) == 0
+
+    def ensures_layout(model, result):
+        return result == ((dbml_comment(model.comment) if model.comment else '')
+                          + (('(' + ', '.join(index_subject_text(x) for x in model.subjects) + ')')
+                             if len(model.subjects) > 1 else index_subject_text(model.subjects[0]))
+                          + the_index_options(model))
 
 
 # ------------------------------------------------------------------------------------------ references
@@ -429,10 +484,9 @@ class render_col:
     params = {'col': 'List[Column]'}
     pure = True
     ret = 'str'
-    allowed = ('IndexError',)
 
     def requires_named(col):
-        return all(c.name is not None for c in col)
+        return len(col) > 0 and all(c.name is not None for c in col)
 
     def ensures_quoted_in_order(col, result):
         return result == (('"' + col[0].name + '"') if len(col) == 1 else
@@ -459,7 +513,6 @@ class render_inline_reference:
     params = {'model': 'Reference'}
     pure = True
     ret = 'str'
-    allowed = ('IndexError',)
 
     def requires_named(model):
         return (model.type is not None and len(model.col1) > 0 and len(model.col2) > 0 and all(c.name is not None for c in model.col2)
@@ -471,6 +524,80 @@ class render_inline_reference:
 
     def ensures_ref_setting(model, result):
         return result == 'ref: ' + model.type + ' ' + dbml_name(model.col2[0].table) + '."' + model.col2[0].name + '"'
+
+
+def dbml_cols(cols):
+    return ('"' + cols[0].name + '"') if len(cols) == 1 else ('(' + ', '.join('"' + c.name + '"' for c in cols) + ')')
+
+
+def dbml_ref_options(r):
+    return ((' [' + ', '.join(([('update: ' + r.on_update)] if r.on_update else [])
+                             + ([('delete: ' + r.on_delete)] if r.on_delete else [])) + ']')
+            if (r.on_update or r.on_delete) else '')
+
+
+def side_named(cols):
+    """a reference side that can be written: at least one column, all named, each in a named table"""
+    return (len(cols) > 0 and all(c.name is not None for c in cols)
+            and all(c.table is not None and c.table.name is not None and c.table.schema is not None for c in cols))
+
+
+def dbml_ref_block(r):
+    """the stand-alone form of a reference (C02): comment lines, `Ref [name] {`, the two sides with the
+    relation between them, the actions, `}`"""
+    return ((dbml_comment(r.comment) if r.comment else '') + 'Ref'
+            + ((' ' + bare_or_quoted_name(r.name)) if r.name else '')
+            + ' {\n    ' + dbml_name(r.col1[0].table) + '.' + dbml_cols(r.col1) + ' ' + r.type + ' '
+            + dbml_name(r.col2[0].table) + '.' + dbml_cols(r.col2) + dbml_ref_options(r) + '\n}')
+
+
+@contract('pydbml.renderer.dbml.default.reference:render_not_inline_reference')
+class render_not_inline_reference:
+    properties = ('C02', 'C04', 'C14', 'C17')
+    params = {'model': 'Reference'}
+    pure = True
+    ret = 'str'
+
+    def requires_sides(model):
+        return model.type is not None and side_named(model.col1) and side_named(model.col2)
+
+    def raises_DBMLError(model):
+        # a side that mixes columns of several tables is refused (C17)
+        return mixed_side(model)
+
+    def ensures_block(model, result):
+        return result == dbml_ref_block(model)
+
+
+@contract('pydbml.renderer.dbml.default.reference:render_reference')
+class dbml_render_reference:
+    """C17: a reference with a column that belongs to no table is refused (TableNotFoundError), one whose side
+    mixes tables too (DBMLError); C02: an inline reference is the `ref:` setting, any other the stand-alone block."""
+    properties = ('C02', 'C17', 'C10')
+    params = {'model': 'Reference'}
+    pure = True
+    ret = 'str'
+
+    def requires_named(model):
+        return (model.type is not None and len(model.col1) > 0 and len(model.col2) > 0
+                and all(c.name is not None for c in model.col1) and all(c.name is not None for c in model.col2)
+                and all(c.table is None or (c.table.name is not None and c.table.schema is not None) for c in model.col1)
+                and all(c.table is None or (c.table.name is not None and c.table.schema is not None) for c in model.col2))
+
+    def raises_TableNotFoundError(model):
+        return not (all(c.table is not None for c in model.col1) and all(c.table is not None for c in model.col2))
+
+    def raises_DBMLError(model):
+        return (all(c.table is not None for c in model.col1) and all(c.table is not None for c in model.col2)
+                and ((model._inline and (len(model.col2) > 1 or not same_table(model.col1)))
+                     or (not model._inline and mixed_side(model))))
+
+    def ensures_inline_setting(model, result):
+        return not model._inline or \
+            result == 'ref: ' + model.type + ' ' + dbml_name(model.col2[0].table) + '."' + model.col2[0].name + '"'
+
+    def ensures_block(model, result):
+        return model._inline or result == dbml_ref_block(model)
 
 
 # ------------------------------------------------------------------------------------------ database
@@ -491,3 +618,129 @@ class dbml_render_db:
 
     def ensures_pieces(cls, db, result):
         return result == dbml_database(db)
+
+
+# ------------------------------------------------------------------------------------------ tables
+def dbml_table_header(t):
+    return ('Table ' + dbml_name(t) + ' ' + (('as "' + t.alias + '" ') if t.alias else '')
+            + (('[headercolor: ' + t.header_color + '] ') if t.header_color else ''))
+
+
+def dbml_table_indexes(t):
+    return (('\n    indexes {\n' + indent('\n'.join(rendered_dbml(i) for i in t.indexes), '        ') + '\n    }\n')
+            if len(t.indexes) > 0 else '')
+
+
+@contract('pydbml.renderer.dbml.default.table:render_header')
+class dbml_render_header:
+    properties = ('C02',)
+    params = {'model': 'Table'}
+    pure = True
+    ret = 'str'
+
+    def requires_named(model):
+        return model.name is not None and model.schema is not None
+
+    def ensures_header(model, result):
+        return result == dbml_table_header(model)
+
+
+@contract('pydbml.renderer.dbml.default.table:render_indexes')
+class dbml_render_indexes:
+    """the indexes block lists every index's own rendering, in order, one per line (C02, C16)"""
+    properties = ('C02', 'C16')
+    params = {'model': 'Table'}
+    pure = True
+    ret = 'str'
+
+    def ensures_block(model, result):
+        return result == dbml_table_indexes(model)
+
+
+@contract('pydbml.renderer.dbml.default.table:render_table')
+class dbml_render_table:
+    """comment lines, header, every column's own rendering in order, the arbitrary properties exactly when the
+    owning database allows them now (C15), the note, the indexes block (C02, C16)."""
+    properties = ('C02', 'C15', 'C16', 'C10')
+    params = {'model': 'Table'}
+    pure = True
+    ret = 'str'
+
+    def requires_named(model):
+        return model.name is not None and model.schema is not None
+
+    def ensures_layout(model, result):
+        return result == (
+            (dbml_comment(model.comment) if model.comment else '') + dbml_table_header(model) + '{\n'
+            + indent('\n'.join(rendered_dbml(c) for c in model.columns), '    ') + '\n'
+            + (indent('\n' + '\n'.join(k + ': ' + quoted(v) for k, v in model.properties.items()) + '\n', '    ')
+               if props_shown(model.database, model.properties) else '')
+            + ((indent(dbml_of(model.note), '    ') + '\n') if model.note.text else '')
+            + dbml_table_indexes(model) + '}')
+
+
+# ------------------------------------------------------------------------------------------ table groups, project
+@contract('pydbml.renderer.dbml.default.table_group:render_table_group')
+class dbml_render_table_group:
+    """comment lines, `TableGroup "name"`, the colour setting, one line per member table (schema-qualified, in
+    order), the note (C02, C16)."""
+    properties = ('C02', 'C16', 'C10')
+    params = {'model': 'TableGroup'}
+    pure = True
+    ret = 'str'
+
+    def requires_named(model):
+        return all(t.name is not None and t.schema is not None for t in model.items)
+
+    def raises_ValueError(model):
+        # a name with a line break cannot be written between double quotes (not producible by the parser)
+        return '\n' in model.name
+
+    def ensures_layout(model, result):
+        return result == (
+            (dbml_comment(model.comment) if model.comment else '') + 'TableGroup ' + doublequoted(model.name)
+            + ((' [color: ' + model.color + ']') if model.color else '') + ' {\n'
+            + ''.join('    ' + dbml_name(t) + '\n' for t in model.items)
+            + ((indent(dbml_of(model.note), '    ') + '\n') if (model.note is not None and model.note.text) else '')
+            + '}')
+
+
+def project_field(k, v):
+    return (k + ": '''" + escaped(v) + "'''\n") if '\n' in v else (k + ": '" + escaped(v) + "'\n")
+
+
+@contract('pydbml.renderer.dbml.default.project:render_items')
+class dbml_render_items:
+    """one `key: 'value'` line per project field in insertion order, values through the escaping helper, multi-line
+    values in a '''-block (C02, C13)"""
+    properties = ('C02', 'C13')
+    params = {'items': 'Dict[str]'}
+    pure = True
+    ret = 'str'
+
+    def ensures_lines(items, result):
+        return result == indent(''.join(project_field(k, v) for k, v in items.items()).rstrip('\n'), '    ') + '\n'
+
+
+@abstract('str')
+def the_project_items(items):
+    from pydbml.renderer.dbml.default.project import render_items as f
+    return f(items)
+
+
+@contract('pydbml.renderer.dbml.default.project:render_project')
+class dbml_render_project:
+    properties = ('C02', 'C16', 'C10')
+    params = {'model': 'Project'}
+    pure = True
+    ret = 'str'
+
+    def raises_ValueError(model):
+        return '\n' in model.name
+
+    def ensures_layout(model, result):
+        return result == (
+            (dbml_comment(model.comment) if model.comment else '') + 'Project ' + doublequoted(model.name) + ' {\n'
+            + indent(''.join(project_field(k, v) for k, v in model.items.items()).rstrip('\n'), '    ') + '\n'
+            + ((indent(rendered_dbml(model.note), '    ') + '\n') if model.note.text else '')
+            + '}')
